@@ -13,10 +13,6 @@ open BbRe.Sched BbRe.SchedTree BbRe.Lemmas.SchedInv
 
 /-! ### helpers -/
 
-/-- a frame step of `Sched` keeps `TS` -/
-theorem TS.sframe {X : List (ScqId × List Nat)} {ts : TState} (h : TS X ts) {s' : State}
-    (hf : SFrame ts.s s') : TS X (ts.setS s') :=
-  ⟨TreeOK.of_sframe h.tree hf, h.side.of_sframe hf⟩
 
 theorem setS_self (ts : TState) : ts.setS ts.s = ts := rfl
 
